@@ -301,7 +301,7 @@ def _run(ctx, rng, k, cancel_prob, max_polls, local_prob, entry, timeouts, force
         env["study_name"] = c._study.name
         S.WORLD.reset(subs=[0 if r2.random() < 0.08 else 1 for _ in range(60)],
                       sched={nm: (not all_local) and r2.random() < 0.85 for nm in env["names"]})
-        if opts.get("_world") == "benign":
+        if opts.get("_world") == "benign" or opts.get("_script") is not None:
             # every step is scheduled, every submission is accepted, every job runs for one poll
             S.WORLD.reset(subs=[], sched={nm: True for nm in env["names"]})
         S.WORLD.poll_code = "OK"
@@ -411,6 +411,10 @@ def _run(ctx, rng, k, cancel_prob, max_polls, local_prob, entry, timeouts, force
             if table["State"][idx] != live.status.name:
                 mon["C12"].append(("rows-consistent", "poll %d: %s is %s in status.csv, %s live"
                                    % (k_, nm, table["State"][idx], live.status.name)))
+            want_job = str(live.jobid[-1]) if live.jobid else "--"
+            if "Job ID" in table and str(table["Job ID"][idx]) != want_job:
+                mon["C12"].append(("rows-consistent", "poll %d: %s shows job %s in status.csv, its latest job is %s"
+                                   % (k_, nm, table["Job ID"][idx], want_job)))
             if snap is not None and snap.values[nm].status.name != table["State"][idx]:
                 mon["C18"].append(("snapshot-vs-status", "poll %d: %s is %s in the snapshot, %s in status.csv"
                                    % (k_, nm, snap.values[nm].status.name, table["State"][idx])))
@@ -435,7 +439,11 @@ def _run(ctx, rng, k, cancel_prob, max_polls, local_prob, entry, timeouts, force
             st["nontrivial"] = True
         reps = []
         for nm in inflight:
-            if opts.get("_world") == "benign":
+            if opts.get("_script") is not None:
+                # a scripted history: one dict (instance -> state) per poll, FINISHED once it is used up
+                sc = opts["_script"]
+                v = sc[k_].get(nm, "omit") if k_ < len(sc) else "FINISHED"
+            elif opts.get("_world") == "benign":
                 seen_polls[nm] = seen_polls.get(nm, 0) + 1
                 v = "RUNNING" if seen_polls[nm] < 2 else "FINISHED"
             elif timeouts and rng.random() < timeouts and rounds.get(nm, 0) < 5:
